@@ -66,13 +66,6 @@ def dumpLine (s : St) : String :=
   let sorted := sortBy (fun a b => pairLt a.1 b.1) ents
   "dump " ++ " ".intercalate (sorted.map (·.2))
 
-/-- Does `DepsGraph::visit` mark a node visited before recursing into its reverse dependencies?
-(derived from the regenerated skeleton: `visited.insert` before or after the loop) -/
-def visitMarksFirst : Bool :=
-  match skel_hot_reloading_dependencies_DepsGraph_visit with
-  | [.call .s_contains, .branch _, .call .s_get, .branch _, .call .s_insert, .loop _, .branch _] => true
-  | _ => false
-
 def parseEvents : List String → Option (List Dep)
   | [] => some []
   | e :: rest => do
@@ -160,15 +153,15 @@ def step (s : St) : List String → St × String
     | none => (s, "bad-op")
     | some ds =>
       if !s.hasReloader then (s, "no-reloader") else
-      let (w, r) := handleEvents (env s) visitMarksFirst fuelDefault s.w s.r ds
+      let (w, r) := handleEvents (env s) fuelDefault s.w s.r ds
       ({ s with w, r }, "ok")
   | ["reload"] =>
     if !s.hasReloader then (s, "ok") else
-    let (w, r) := hotReload (env s) visitMarksFirst fuelDefault s.w s.r
+    let (w, r) := hotReload (env s) fuelDefault s.w s.r
     ({ s with w, r }, if r.dead then "reloader-dead" else "ok")
   | ["enhance"] =>
     if !s.hasReloader then (s, "ok") else
-    let (w, r) := enhance (env s) visitMarksFirst fuelDefault s.w s.r
+    let (w, r) := enhance (env s) fuelDefault s.w s.r
     ({ s with w, r }, if r.dead then "reloader-dead" else "ok")
   | ["rid", ty, id] => match keyOf ty id with
     | some k => (s, match s.w.lookup k with | some c => toString c.rid | none => "none")
